@@ -65,6 +65,11 @@ expressions
     `xs += ys` on a LOCAL that is only ever bound to fresh lists (display / comprehension / concatenation — otherwise the in-place
     extension could be visible through another name: `Unsupported`); `odxassert(isinstance(e, T))` without a spec'd `isinstance`
     is a typing assertion: dropped and listed, but `e` is still evaluated (`let _ := …`)
+  * pure functions, Python protocols named by the spec (W20): `==` / `!=` on a record type for which the spec gives `__eq__`
+    (`PureSpec.eq`; Optional operands → `Py.optEq`: `None == None`, a value never equals None); `isinstance(e, T)` /
+    `issubclass(e, T)` with `T` a builtin type name or a tuple of such names (tuple = any of them) through the tables
+    `PureSpec.isinstance` / `.issubclass` (a type the table does not list: `Unsupported`); attribute chains through Optional
+    records (`a.b.c` with `a.b` Optional → `Py.unwrapAttr`); templates of the spec may call other GENERATED functions
   * several `def`s of one name in a class / module (typing.overload stubs): the LAST one is translated (Python's binding)
   * function headers: decorators `property`, `override`, `staticmethod` only; parameter defaults must be constants (they concern the
     callers; the rendering takes every parameter explicitly); annotations are never consulted
